@@ -1,7 +1,109 @@
-"""C10 - reading is a deterministic, isolated function of document and options."""
+"""C10 - reading is a deterministic, isolated function of document and options.
+
+Decided clauses (DESIGN.md 4/C10), for the six discovered readers:
+ 1 R-STATE     every piece of reader state written or mutated during read() is re-created before its first use in
+               that call (helper objects held in attributes included)
+ 2 R-DEFAULTS  no mutable default argument escapes, package-wide
+ 3 R-HASHORDER / R-NONDET over read-reachable code
+ 4 R-GLOBALMUT no module-/class-level object is mutated; R-SCRATCH: lists handed to a Caption are re-bound, never
+               destructively mutated
+NOT decided: equality of two result sets as such.
+"""
+import ast
+
+from ..core.tree import AnalysisError
+from ..core.astutil import walk_no_nested, call_name, short, src, is_self_attr
+from ..engines import effects as E
 from ..engines import structural as S
+from ..engines import pathrules as PR
+from ..engines.absint import AV, Piece
+
+DESTRUCTIVE = {"clear", "pop", "remove", "sort", "reverse", "insert", "popleft", "__delitem__"}
+
+
+def readers(ctx):
+    base = ctx.index.get_class("pycaption/base.py", "BaseReader")
+    return sorted((c for c in ctx.index.subclasses(base, strict=True)), key=lambda c: (c.module.path, c.name))
 
 
 def run(ctx, report):
-    S.rule_defaults(report, ctx.index, clause="2")
-    S.rule_globalmut_direct(report, ctx.index, clause="4")
+    E.validate_schema(ctx.index)
+    rs = readers(ctx)
+    if len(rs) < 6:
+        raise AnalysisError(f"only {len(rs)} readers discovered (floor 6)")
+    for cls in rs:
+        report.section(cls.name, one_reader, ctx, report, cls)
+    report.section("defaults", S.rule_defaults, report, ctx.index, "2")
+    report.section("direct global mutation", S.rule_globalmut_direct, report, ctx.index, "4")
+    report.section("scratch lists", scratch_lists, ctx, report, rs)
+    report.not_decided.append("equality of two result sets as such; behaviour of bs4 / html.parser / cssutils")
+    report.assume("DEFAULT_LANGUAGE_CODE is read from the environment once at import (configuration)")
+
+
+def one_reader(ctx, report, cls):
+    rd = cls.find_method("read")
+    if rd is None or rd.cls.name == "BaseReader":
+        report.info("R-STATE", (cls.module.path, cls.name), "inherits BaseReader.read")
+        return
+    doc = AV(kinds=["str"], pieces=[Piece("data", "doc", (), None, None)])
+    run = E.run_entry(ctx, cls, "read", {rd.params[1]: doc})
+    for f in sorted(run.I.visited_functions):
+        report.covered(f)
+    E.rule_state(report, run, f"{cls.name}: read() starts from freshly created state", "1")
+    E.rule_hashorder(report, run, f"{cls.name}.read: no hash order reaches the result", "3")
+    E.rule_nondet(report, run, f"{cls.name}.read calls no clock / random / environment source", "3")
+    E.rule_globalmut(report, run, f"{cls.name}.read mutates no module-/class-level object", "4")
+    report.count("functions_inlined", len(run.I.visited_functions))
+    report.count("calls_unresolved", run.I.counters["calls_unresolved"])
+
+
+def scratch_lists(ctx, report, rs):
+    n = 0
+    for cls in rs:
+        attrs = {}
+        for m in cls.methods.values():
+            for c in walk_no_nested(m.node):
+                if isinstance(c, ast.Call) and call_name(c) == "Caption":
+                    for a in list(c.args) + [k.value for k in c.keywords]:
+                        if is_self_attr(a):
+                            attrs.setdefault(a.attr, []).append((m, c))
+        for attr, uses in attrs.items():
+            n += 1
+            bad = []
+            for m in cls.methods.values():
+                for node in walk_no_nested(m.node):
+                    if isinstance(node, ast.Call) and isinstance(node.func, ast.Attribute) \
+                            and is_self_attr(node.func.value) and node.func.value.attr == attr \
+                            and node.func.attr in DESTRUCTIVE:
+                        bad.append(f"{m.qualname}: {short(node)}")
+                    if isinstance(node, ast.Delete):
+                        for t in node.targets:
+                            if isinstance(t, ast.Subscript) and is_self_attr(t.value) and t.value.attr == attr:
+                                bad.append(f"{m.qualname}: {short(node)}")
+                    if isinstance(node, ast.Assign):
+                        for t in node.targets:
+                            if isinstance(t, ast.Subscript) and is_self_attr(t.value) and t.value.attr == attr:
+                                bad.append(f"{m.qualname}: {short(node)}")
+            report.check(not bad, "R-SCRATCH", (cls.module.path, cls.name),
+                         f"self.{attr} (handed to Caption) is never destructively mutated",
+                         {"destructive_sites": bad,
+                          "why": "the list lives on in the caption already returned: clearing it edits an earlier result"}, "4")
+            for m, call in uses:
+                def classify(node, attr=attr, call=call):
+                    if isinstance(node, ast.Assign) and any(is_self_attr(t) and t.attr == attr for t in node.targets) \
+                            and isinstance(node.value, (ast.List, ast.Call, ast.ListComp)):
+                        return "FRESH"
+                    if node is call:
+                        return "HANDOVER"
+                    return None
+                paths = PR.paths_of_block(m.node.body, classify)
+                bad_paths = []
+                for ev, end in paths:
+                    fl = PR.flat(ev)
+                    if "HANDOVER" in fl and "FRESH" not in fl[:fl.index("HANDOVER")]:
+                        bad_paths.append(fl)
+                report.check(not bad_paths, "R-SCRATCH", (m, call),
+                             f"self.{attr} is re-bound to a fresh list before every caption that receives it",
+                             {"offending_paths": bad_paths[:2]}, "4")
+    if n < 2:
+        raise AnalysisError(f"R-SCRATCH: only {n} scratch lists found (floor 2: DFXPReader.nodes, SAMIReader.line)")
